@@ -36,10 +36,17 @@ import (
 func main() { hv.Main(map[string]func(*hv.RunCfg) error{"c16": runC16}) }
 
 type runner struct {
-	rep *hv.Report
-	cf  *hv.CaseFile
-	r   *hv.Rng
+	rep    *hv.Report
+	cf     *hv.CaseFile
+	r      *hv.Rng
+	byKind map[string]int
 }
+
+// maxPerKind: hv.Report keeps the first 200 failures of a run and drops the rest.  One pinned finding that
+// fires a few hundred times in a thorough run (json-template-leading-bom: ~230 of 40,000 cases) would fill the
+// list and push every later failure, of whatever kind, out of the report.  Every failure is counted in the
+// histogram (oracle-fail:<kind>); the report carries the first maxPerKind of each kind.
+const maxPerKind = 40
 
 func (x *runner) addCase(coq string, idx string) {
 	x.cf.Add(coq)
@@ -47,7 +54,13 @@ func (x *runner) addCase(coq string, idx string) {
 }
 
 func (x *runner) fail(kind, detail string, sp *Spec) {
-	x.rep.Fail(hv.Failure{Kind: kind, Detail: detail, Input: sp.String()})
+	if x.byKind == nil {
+		x.byKind = map[string]int{}
+	}
+	x.byKind[kind]++
+	if x.byKind[kind] <= maxPerKind {
+		x.rep.Fail(hv.Failure{Kind: kind, Detail: detail, Input: sp.String()})
+	}
 	x.rep.Hist("oracle-fail:" + kind)
 }
 
@@ -205,6 +218,50 @@ func leadingBOM(t *Ty, rv reflect.Value) bool {
 	return found
 }
 
+// bomDuplicateKeys decides whether the errors of a template-mode JSON decode are json-template-leading-bom
+// and nothing else: (1) every diagnostic is the JSON object expression's "Duplicate object attribute" naming a
+// key that two keys of one template-evaluated map of the value both evaluate to once a leading U+FEFF is
+// stripped, not more of them than there are such keys; (2) the SAME value without the colliding keys, written
+// and decoded the same way, gives no error and comes back equal up to the stripped byte order marks.
+func (x *runner) bomDuplicateKeys(t *Ty, rv reflect.Value, diags hcl.Diagnostics, ctx *hcl.EvalContext) bool {
+	excess := map[string]int{}
+	bomKeyGroups(t, rv, false, excess)
+	total := 0
+	for _, n := range excess {
+		total += n
+	}
+	if total == 0 || len(diags) > total {
+		return false
+	}
+	for _, d := range diags {
+		if d.Severity != hcl.DiagError || d.Summary != "Duplicate object attribute" {
+			return false
+		}
+		named := false
+		for name := range excess {
+			if strings.HasPrefix(d.Detail, fmt.Sprintf("An attribute named %q was already defined at ", name)) {
+				named = true
+			}
+		}
+		if !named {
+			return false
+		}
+	}
+	rv2 := dropBOMCollidingKeys(t, rv, false)
+	want2 := normStruct(t, rv2, false)
+	jf, jd := hcljson.Parse([]byte(jsonOfFile(fileOfValue(t, rv2), true, nil)), "t.json")
+	if jd.HasErrors() {
+		return false
+	}
+	out2, diags2, p := decodeReal(jf.Body, ctx, t)
+	if p != nil || diags2.HasErrors() {
+		return false
+	}
+	clearBodies(t, out2)
+	n := 0
+	return equalModuloLeadingBOM(t, want2, out2, false, &n)
+}
+
 func hasTopLabels(t *Ty) bool {
 	for _, f := range t.F {
 		if f.Kind == "label" {
@@ -353,7 +410,13 @@ func (x *runner) roundtrip(t *Ty, rv reflect.Value, note string) {
 			case p != nil:
 				x.fail("decode-panic", "json: "+fmt.Sprint(p)+"\n"+jsrc, sp)
 			case diags.HasErrors():
-				x.fail("json-decode-differs", "json decode errors: "+diagStr(diags)+"\n"+jsrc, sp)
+				if tmpl && leadingBOM(t, rv) && x.bomDuplicateKeys(t, rv, diags, ctx) {
+					// the same finding seen as an error: two keys of one map differ only by the leading
+					// U+FEFF that template evaluation strips, and nothing else is wrong
+					x.fail("json-template-leading-bom", "ctx != nil: map keys collide once the leading U+FEFF is stripped: "+diagStr(diags)+"\n"+jsrc, sp)
+				} else {
+					x.fail("json-decode-differs", "json decode errors: "+diagStr(diags)+"\n"+jsrc, sp)
+				}
 			default:
 				clearBodies(t, out)
 				if !reflect.DeepEqual(want.Interface(), out.Interface()) {
@@ -450,8 +513,11 @@ func (x *runner) textCase(t *Ty, src []byte, isJSON bool, origin string) (out re
 	if !isJSON && inUniverse(t) {
 		info := &hv.ValInfo{}
 		af, fok := fileOfBody(file.Body.(*hclsyntax.Body))
-		cs := coqAFile(af, info)
-		if fok && !info.Inexact && !info.Unsupported {
+		if hugeNumber(af) {
+			// inexact in any case (see hugeNumberVal); printing it would take minutes
+			rep.Hist("coq:dec-case-skipped(non-constant or inexact)")
+			rep.Hist("coq:dec-case-skipped:number-exponent-beyond-4096")
+		} else if cs := coqAFile(af, info); fok && !info.Inexact && !info.Unsupported {
 			x.addCase(fmt.Sprintf("CDec %s %s %s", coqSchema(t.F), cs, coqDecObs(t, out, diags, nil)), "dec:"+key)
 			rep.Hist("coq:dec-case")
 			rep.Hist("coq:dec-case:ill-formed")
